@@ -110,7 +110,8 @@ Section WildDisc.
       apply_all (ri r) [] evs = Some S' /\
       WInv r cfg s' Fin S' /\
       match evs with e0 :: _ => ri (elib e0) = ri r | [] => last_sent s' = None end /\
-      (forall x, In x U -> In (bid x) (keys (store (db s)) ++ [bid b]) -> wknown s' x).
+      (forall x, In x U -> In (bid x) (keys (store (db s)) ++ [bid b]) -> wknown s' x) /\
+      libref (db s') = r /\ (exists bl, In bl U /\ bid bl = ri r).
 
   (* the forkdb right after SetLIB set the LIB reference to r (nothing sent yet, no purge) *)
   Lemma dbinv_found s b r : PreInv s -> In b U -> find (bid b) (store (db s)) = None -> ri r <> 0 ->
@@ -150,7 +151,8 @@ Section WildDisc.
       - rewrite Hls'. split; [exact Hb|]. exists []. split; [constructor|]. split; [reflexivity | constructor]. }
     split.
     { rewrite Hel. unfold cursor_lib, s2. cbn [with_db last_lib_seen db]. rewrite Hlls. reflexivity. }
-    intros x Hx Hin. left. rewrite Hdb'. cbn [d2 move_lib new_db store]. rewrite keys_snoc. exact Hin.
+    split; [intros x Hx Hin; left; rewrite Hdb'; cbn [d2 move_lib new_db store]; rewrite keys_snoc; exact Hin|].
+    split; [rewrite Hdb'; reflexivity|]. exists b. split; [exact Hb | reflexivity].
   Qed.
 
   (* the LIB part of the discovering step: the LIB reference does not change; if the LIB block is stored it is
@@ -164,7 +166,8 @@ Section WildDisc.
       lib_tail cfg s3 b evs fi = (s', evs ++ evQ, ROk) /\
       WInv r cfg s' [] S3 /\ last_sent s' = Some b /\
       Forall (WildLibInv.quiet) evQ /\
-      (forall x, In x U -> In (bid x) (keys (store (db s3))) -> wknown s' x).
+      (forall x, In x U -> In (bid x) (keys (store (db s3))) -> wknown s' x) /\
+      libref (db s') = r.
   Proof.
     intros HI Hlib Hls Hb Hr Hbic (e' & Fe' & Hnum).
     pose proof HI as [Hd Hflast Hh]. rewrite Hls in Hh. destruct Hh as (_ & q & Hq & HS & Hsent).
@@ -176,7 +179,7 @@ Section WildDisc.
     rewrite Hbic. destruct (N.eqb_spec (ri r) 0) as [E0|_]; [contradiction|].
     unfold has_new_irr_segment. rewrite Hlib, N.eqb_refl. cbn [negb andb app].
     destruct fi as [sg|].
-    2:{ exists s3, []. rewrite app_nil_r. split; [reflexivity|]. split; [exact HI|]. split; [exact Hls|]. split; [constructor | exact Hstay]. }
+    2:{ exists s3, []. rewrite app_nil_r. split; [reflexivity|]. split; [exact HI|]. split; [exact Hls|]. split; [constructor|]. split; [exact Hstay | exact Hlib]. }
     cbv zeta.
     assert (Hpur : forall pe, In pe (store (db s3)) -> esent pe = true -> bnum (eb pe) < rn r - c_kept cfg ->
                    ~ WildLibInv.anc U (key pe) (ri r)).
@@ -195,7 +198,7 @@ Section WildDisc.
     rewrite Hrun6. cbv beta iota.
     assert (Hdb : db s6 = d') by (rewrite Hdb6, Hdb5; reflexivity).
     assert (Hlast : last_sent s6 = Some b) by (rewrite Hls6, Hls5; exact Hls).
-    exists s6, (ev5 ++ ev6). split; [reflexivity|]. split; [|split; [exact Hlast|split]].
+    exists s6, (ev5 ++ ev6). split; [reflexivity|]. split; [|split; [exact Hlast|split; [|split; [|rewrite Hdb; exact Hl']]]].
     - constructor; rewrite ?Hdb.
       + exact Hd'.
       + cbn [rev]. rewrite Hl'. reflexivity.
@@ -315,7 +318,12 @@ Section WildDisc.
     destruct longest as [|sg0 sgs] eqn:Elong.
     { (* nothing to deliver yet: the LIB is known, the stream has not started *)
       exists s2, [], r, [], []. split; [reflexivity|]. split; [exact E0|]. split; [reflexivity|]. split; [exact HI2|].
-      split; [exact Hls|]. intros x Hx Hin. left. cbn [s2 with_db db]. rewrite Hk2. exact Hin. }
+      split; [exact Hls|]. split; [intros x Hx Hin; left; cbn [s2 with_db db]; rewrite Hk2; exact Hin|].
+      split; [reflexivity|].
+      destruct Hnum as [Eid|[Hsto _]]; [exists b; split; [exact Hb | symmetry; exact Eid]|].
+      unfold num_of in Hsto. rewrite He1 in Hsto.
+      destruct (find (ri r) (store d1)) as [e'|] eqn:Fe'; [|congruence].
+      pose proof (find_some _ _ _ Fe') as [He'in He'k]. exists (eb e'). split; [apply HU1; exact He'in | exact He'k]. }
     rewrite <- Elong in *.
     assert (Hshape : exists pP, chain (store d2) (bid b) (ri r) (pP ++ [en]) /\ longest = map seg_of (pP ++ [en])).
     { destruct rch.
@@ -352,7 +360,7 @@ Section WildDisc.
       - rewrite Hst3, find_mark_all. cbn [s2 with_db db d2 move_lib store]. rewrite Fe'. reflexivity.
       - rewrite flag_if_eb. apply Hnum. reflexivity. }
     destruct (disc_lib s3 _ b (evU ++ evRN) r (block_for_id d2 (ri r)) HI3 Hlr3 Hls3 Hb E0 Hbic3 Hsto3)
-      as (s' & evQ & Hlt & HI' & Hls' & HsQ & Hkn).
+      as (s' & evQ & Hlt & HI' & Hls' & HsQ & Hkn & Hlr').
     rewrite Hlt.
     exists s', ((evU ++ evRN) ++ evQ), r, [], (rev ([] ++ map eb (pP ++ [en]))).
     split; [reflexivity|]. split; [exact E0|]. split.
@@ -361,7 +369,10 @@ Section WildDisc.
     { destruct (evU ++ evRN) as [|e0 rest] eqn:Eev; [congruence|]. cbn [app].
       pose proof (Forall_inv Hcl3) as He0. cbn beta in He0. rewrite He0.
       unfold cursor_lib, s2. cbn [with_db last_lib_seen db]. rewrite Hlls. reflexivity. }
-    intros x Hx Hin. apply Hkn; [exact Hx|]. rewrite Hk3. cbn [s2 with_db db]. rewrite Hk2. exact Hin.
+    split; [intros x Hx Hin; apply Hkn; [exact Hx|]; rewrite Hk3; cbn [s2 with_db db]; rewrite Hk2; exact Hin|].
+    split; [exact Hlr'|].
+    destruct Hsto3 as (e3 & Fe3 & _). pose proof (find_some _ _ _ Fe3) as [He3in He3k].
+    exists (eb e3). split; [apply (WildLibInv.di_inU U _ (WildLibInv.i_db U r cfg _ _ _ HI3)); exact He3in | exact He3k].
   Qed.
 
   (* ---------- whole histories ---------- *)
@@ -378,7 +389,8 @@ Section WildDisc.
     length t = length h /\ Forall (fun x => snd x = ROk) t /\
     disc_ok t /\
     (lib_mono_b cfg s h = true -> c01_refeed_b seen h t = true) /\
-    ((forall x, In x U -> first < bnum x) -> lib_mono_b cfg s h = true).
+    ((forall x, In x U -> first < bnum x) -> lib_mono_b cfg s h = true) /\
+    ((forall x, In x U -> first <= bnum x) -> lib_mono_b cfg s h = true).
   Proof.
     induction h as [|b h IH]; intros s seen HP Hh Hseen.
     - cbn. repeat split; auto. exists []. reflexivity.
@@ -391,27 +403,28 @@ Section WildDisc.
         rewrite Hstep.
         assert (Hseen' : PSeen s' (b :: seen)).
         { intros x [<-|Hx]; [split; assumption|]. destruct (Hseen x Hx) as [HxU Hkx]. split; [exact HxU | apply Hkeys; exact Hkx]. }
-        destruct (IH s' (b :: seen) HP' Hh' Hseen') as (Hlen & Hok & Hd & Hre & Hmn).
+        destruct (IH s' (b :: seen) HP' Hh' Hseen') as (Hlen & Hok & Hd & Hre & Hmn & Hmm).
         cbn zeta in *. split; [cbn [length]; rewrite Hlen; reflexivity|].
         split; [constructor; [reflexivity | exact Hok]|].
-        split; [exact Hd|]. split.
+        split; [exact Hd|]. split; [|split].
         * intros Hm. apply andb_true_iff in Hm as [_ Hm].
           cbn [c01_refeed_b]. rewrite (Hre Hm). destruct (existsb (block_eqb b) seen); reflexivity.
         * intros Hfirst. rewrite (Hmn Hfirst), andb_true_r, Hl0. apply N.leb_le. lia.
+        * intros Hle. rewrite (Hmm Hle), andb_true_r, Hl0. apply N.leb_le. lia.
       + (* the LIB is discovered *)
-        destruct Hdisc as (s' & evs & r & Fin & S' & Hstep & Hr & Happ & HI' & Hfirst & Hkn).
+        destruct Hdisc as (s' & evs & r & Fin & S' & Hstep & Hr & Happ & HI' & Hfirst & Hkn & Hlr' & Hbl).
         rewrite Hstep.
         assert (Hseen' : WildLibInv.Seen U s' (b :: seen)).
         { intros x [<-|Hx].
           - split; [exact Hb|]. apply (Hkn b Hb). apply in_or_app. right. left. reflexivity.
           - destruct (Hseen x Hx) as [HxU Hkx]. split; [exact HxU|]. apply (Hkn x HxU). apply in_or_app. left. exact Hkx. }
         destruct (WildLibInv.run_wild U r cfg Hnofail Hnew Hundo U_id U_uniq U_up Hr
-                    h s' Fin S' (b :: seen) HI' Hh' Hseen') as (Hlen & Hok & (S2 & Happ2) & Hre & Hfl & Hmn).
+                    h s' Fin S' (b :: seen) HI' Hh' Hseen') as (Hlen & Hok & (S2 & Happ2) & Hre & Hfl & Hmn & Hmm).
         cbn zeta in *. split; [cbn [length]; rewrite Hlen; reflexivity|].
         split; [constructor; [reflexivity | exact Hok]|].
         assert (Hall : all_events ((evs, ROk) :: fk_run cfg s' h) = evs ++ all_events (fk_run cfg s' h)).
         { unfold all_events. cbn [map concat fst]. reflexivity. }
-        split; [|split].
+        split; [|split; [|split]].
         * unfold disc_ok, root_lib. rewrite Hall.
           destruct evs as [|e0 rest].
           -- cbn [app]. unfold WildLibInv.first_lib in Hfl. specialize (Hfl Hfirst).
@@ -428,6 +441,8 @@ Section WildDisc.
           apply existsb_exists in Hex as (x & Hx & Heq). apply block_eqb_eq in Heq. subst x.
           destruct (Hseen b Hx) as [_ Hkb]. contradiction.
         * intros Hab. rewrite (Hmn Hab), andb_true_r, Hl0. apply N.leb_le. lia.
+        * intros Hle. rewrite Hl0. replace (0 <=? rn (libref (db s'))) with true by (symmetry; apply N.leb_le; lia).
+          cbn [andb]. apply Hmm; [left; exact Hlr' | exact Hle | left; exact Hbl].
   Qed.
 
   Theorem wild_disc_run h : (forall b, In b h -> In b U) ->
@@ -437,9 +452,10 @@ Section WildDisc.
     c01_discipline_b LNone t = true /\
     c01_error_b (c_fail_at cfg) 0 t = true /\
     (lib_mono_b cfg (fs_init LNone) h = true -> c01_refeed_b [] h t = true) /\
-    ((forall x, In x U -> first < bnum x) -> lib_mono_b cfg (fs_init LNone) h = true).
+    ((forall x, In x U -> first < bnum x) -> lib_mono_b cfg (fs_init LNone) h = true) /\
+    ((forall x, In x U -> first <= bnum x) -> lib_mono_b cfg (fs_init LNone) h = true).
   Proof.
-    intros Hh. destruct (run_pre h (fs_init LNone) [] (pre_init U cfg) Hh) as (Hlen & Hok & Hd & Hre & Hmn).
+    intros Hh. destruct (run_pre h (fs_init LNone) [] (pre_init U cfg) Hh) as (Hlen & Hok & Hd & Hre & Hmn & Hmm).
     { intros x []. }
     cbn zeta. repeat split; try assumption.
     - unfold c01_discipline_b. destruct Hd as [S' ->]. reflexivity.
